@@ -236,9 +236,13 @@ pub fn check_json(c: &JsonCase, ctx: &mut Ctx) -> CheckResult {
         }
     }
     let (o1, o2) = catch(|| {
+        clarabel::verif::trace::start();
         s1.solve();
+        let t1 = clarabel::verif::trace::take();
+        clarabel::verif::trace::start();
         s2.solve();
-        (collect(&s1, vec![]), collect(&s2, vec![]))
+        let t2 = clarabel::verif::trace::take();
+        (collect(&s1, t1), collect(&s2, t2))
     })
     .map_err(|p| format!("solve panicked: {p}"))?;
     ctx.sub_evals += 2;
@@ -260,6 +264,14 @@ pub fn check_json(c: &JsonCase, ctx: &mut Ctx) -> CheckResult {
     // tolerances an unbounded LP can transiently meet the relative "solved" test, and the one-ulp differences
     // of a scale/unscale round trip decide which test fires first.  Verdicts are compared on planted data only.
     let planted = ps.planted.is_some() || ps.kind != Kind::Feasible;
+    // known finding (same root cause as C05:solved-at-diverged-iterate): one copy is reported Solved at an iterate
+    // whose homogenisation scalar has collapsed (x = x_int/tau diverges) while the other copy gets the
+    // infeasibility verdict
+    let diverged = |o: &SolveOut| o.status == SolverStatus::Solved && (o.trace.last().map(|r| r.tau).unwrap_or(1.0) < 1e-8 || norm_inf(&o.x).max(norm_inf(&o.z)) > 1e12 * (1.0 + norm_inf(&ps.q) + norm_inf(&ps.b.iter().map(|v| v.min(bound)).collect::<Vec<f64>>())));
+    if planted && a != b && a != Verdict::None && b != Verdict::None && (diverged(&o1) || diverged(&o2)) && known_finding_hit("C19:verdict-flip-solved-at-diverged-iterate") {
+        ctx.label("known-finding:verdict-flip-solved-at-diverged-iterate");
+        return Ok(());
+    }
     if !planted && a != b && a != Verdict::None && b != Verdict::None {
         ctx.label("unplanted:verdicts-differ(not judged)");
     }
